@@ -308,4 +308,142 @@ FTSpec == FTInit /\ [][FTNext]_gvars
 FTFirstTouch == cls \in {"ft_op1", "ft_op1_sb", "ft_batch"} => touched = {}
 (* and a buffered op touches nothing before it is consumed *)
 FTBufferedUntouched == cls = "ft_op1_cons" => touched = {}
+----------------------------------------------------------------------------
+(***************************************************************************)
+(* A SERIALIZATION BUFFER IS A SEQUENCE - an exhaustive family (breadth-   *)
+(* first TLC, KvStoreGenBO.cfg; one `Emit` per behaviour).                 *)
+(*                                                                         *)
+(*   [batch; BOPrefix; commit; read everything]                            *)
+(*   batch; <body>; commit; read everything; close/open; read everything   *)
+(*                                                                         *)
+(* The body puts 2..BO_MAXOPS CONFLICTING operations on ONE target cell    *)
+(* (wide W1:K1:V1: put 1 / put 2 / delete, every sequence incl. the same   *)
+(* op twice; set S1:K1: insert / remove of E1, every sequence):            *)
+(*   shape "one"  : all in one buffer, optionally with an op on another    *)
+(*                  cell of the same column and / or one of another column *)
+(*                  after the first target op; consume;                    *)
+(*   shape "two"  : spread over two buffers (the first op goes to buffer   *)
+(*                  1, both buffers used), consumed into one batch in      *)
+(*                  both orders - the order of consumption decides;        *)
+(*   shape "mixed": one op directly on the batch, the other one buffered:  *)
+(*                  direct, buffer+consume | buffer, direct, consume       *)
+(*                  (the buffered op lands AFTER the direct one) | buffer, *)
+(*                  consume, direct.                                       *)
+(* The prefix is absent or W1:K1:V1 = 1, W1:K2:V1 = 1, S1:K1 = {E1}.       *)
+(* The harness replays every behaviour with padded buffers (dozens of      *)
+(* writes to columns outside the model around the model's ops).            *)
+(***************************************************************************)
+BOMaxOps == atoi(IOEnv.BO_MAXOPS)
+
+Del(c, key, vt) == [k |-> "del", c |-> c, key |-> key, x |-> vt, val |-> 0]
+Rem(c, key, e) == [k |-> "rem", c |-> c, key |-> key, x |-> e, val |-> 0]
+BOPrefix == <<Put("W1", "K1", "V1", 1), Put("W1", "K2", "V1", 1), Ins("S1", "K1", "E1")>>
+BOTarget(tg) == IF tg = "w" THEN {Put("W1", "K1", "V1", 1), Put("W1", "K1", "V1", 2), Del("W1", "K1", "V1")}
+                ELSE {Ins("S1", "K1", "E1"), Rem("S1", "K1", "E1")}
+BOFillSame(tg) == IF tg = "w" THEN Put("W1", "K2", "V1", 2) ELSE Ins("S1", "K2", "E1")
+BOFillOther(tg) == IF tg = "w" THEN Put("W2", "K1", "V1", 2) ELSE Ins("S2", "K1", "E1")
+
+(* the choices made at the start *)
+BOHdr == hist[1]
+BOTg == BOHdr.tgt
+(* events of the body so far, by role *)
+BORole(r) == {i \in 1..Len(hist) : hist[i].a = "op" /\ "role" \in DOMAIN hist[i] /\ hist[i].role = r}
+BOInBuf(h) == {i \in BORole("t") : hist[i].via = "sb" /\ hist[i].h = h}
+
+BOInit ==
+    /\ Init
+    /\ hist = <<>>
+    /\ cls = "bo_start"
+    /\ widx = 0
+    /\ steps = 0
+    /\ done = FALSE
+
+BOOp(via, h, op, role) == [a |-> "op", via |-> via, h |-> h, op |-> op, role |-> role]
+
+BONext ==
+    \* --- choices, prefix ----------------------------------------------------
+    \/ /\ cls = "bo_start"
+       /\ OpenBatch(1)
+       /\ \E pre \in {"none", "content"}, tg \in {"w", "s"},
+            sh \in {<<"one", 0>>, <<"two", 0>>, <<"mixed", 1>>, <<"mixed", 2>>, <<"mixed", 3>>} :
+             FRec([a |-> "batch", h |-> 1, prefix |-> pre, tgt |-> tg, shape |-> sh[1], arr |-> sh[2]],
+                  IF pre = "none" THEN "bo_body" ELSE "bo_pre", 1)
+    \/ /\ cls = "bo_pre"
+       /\ BatchOp(1, BOPrefix[widx])
+       /\ FRec([a |-> "op", via |-> "wb", h |-> 1, op |-> BOPrefix[widx]],
+               IF widx < Len(BOPrefix) THEN "bo_pre" ELSE "bo_precommit",
+               IF widx < Len(BOPrefix) THEN widx + 1 ELSE 0)
+    \/ /\ cls = "bo_precommit"
+       /\ Commit(1)
+       /\ FRec([a |-> "commit", h |-> 1, q |-> TRUE, state |-> Dump(wide', sets')], "bo_presweep", 0)
+    \/ /\ cls = "bo_presweep"
+       /\ Sweep
+       /\ FRec([a |-> "sweep", state |-> Dump(wide, sets)], "bo_batch", 0)
+    \/ /\ cls = "bo_batch"
+       /\ OpenBatch(1)
+       /\ FRec([a |-> "batch", h |-> 1], "bo_body", 0)
+    \* --- shape "one" ----------------------------------------------------------
+    \/ /\ cls = "bo_body" /\ BOHdr.shape = "one"
+       /\ OpenBuf(1) /\ FRec([a |-> "buf", h |-> 1], "bo_one", 0)
+    \/ /\ cls = "bo_one"
+       /\ \/ /\ Cardinality(BORole("t")) < BOMaxOps
+             /\ \E op \in BOTarget(BOTg) : BufOp(1, op) /\ FRec(BOOp("sb", 1, op, "t"), "bo_one", 0)
+          \/ /\ Cardinality(BORole("t")) = 1 /\ BORole("fs") = {} /\ BORole("fo") = {}
+             /\ BufOp(1, BOFillSame(BOTg)) /\ FRec(BOOp("sb", 1, BOFillSame(BOTg), "fs"), "bo_one", 0)
+          \/ /\ Cardinality(BORole("t")) = 1 /\ BORole("fo") = {}
+             /\ BufOp(1, BOFillOther(BOTg)) /\ FRec(BOOp("sb", 1, BOFillOther(BOTg), "fo"), "bo_one", 0)
+          \/ /\ Cardinality(BORole("t")) >= 2
+             /\ Consume(1, 1) /\ FRec([a |-> "consume", h |-> 1, s |-> 1], "bo_commit", 0)
+    \* --- shape "two" ----------------------------------------------------------
+    \/ /\ cls = "bo_body" /\ BOHdr.shape = "two"
+       /\ OpenBuf(1) /\ FRec([a |-> "buf", h |-> 1], "bo_two_buf", 0)
+    \/ /\ cls = "bo_two_buf"
+       /\ OpenBuf(2) /\ FRec([a |-> "buf", h |-> 2], "bo_two", 0)
+    \/ /\ cls = "bo_two"
+       /\ \/ /\ Cardinality(BORole("t")) < BOMaxOps
+             /\ \E op \in BOTarget(BOTg), h \in (IF BORole("t") = {} THEN {1} ELSE {1, 2}) :
+                   BufOp(h, op) /\ FRec(BOOp("sb", h, op, "t"), "bo_two", 0)
+          \/ /\ BOInBuf(1) # {} /\ BOInBuf(2) # {}
+             /\ \E first \in {1, 2} :
+                   Consume(1, first) /\ FRec([a |-> "consume", h |-> 1, s |-> first], "bo_two_cons", 3 - first)
+    \/ /\ cls = "bo_two_cons"
+       /\ Consume(1, widx) /\ FRec([a |-> "consume", h |-> 1, s |-> widx], "bo_commit", 0)
+    \* --- shape "mixed" ----------------------------------------------------------
+    \/ /\ cls = "bo_body" /\ BOHdr.shape = "mixed" /\ BOHdr.arr = 1
+       /\ \E op \in BOTarget(BOTg) : BatchOp(1, op) /\ FRec(BOOp("wb", 1, op, "t"), "bo_m_buf", 0)
+    \/ /\ cls = "bo_body" /\ BOHdr.shape = "mixed" /\ BOHdr.arr \in {2, 3}
+       /\ OpenBuf(1) /\ FRec([a |-> "buf", h |-> 1], "bo_m_sb", 0)
+    \/ /\ cls = "bo_m_buf"
+       /\ OpenBuf(1) /\ FRec([a |-> "buf", h |-> 1], "bo_m_sb", 0)
+    \/ /\ cls = "bo_m_sb"
+       /\ \E op \in BOTarget(BOTg) :
+             BufOp(1, op) /\ FRec(BOOp("sb", 1, op, "t"),
+                                  CASE BOHdr.arr = 1 -> "bo_m_cons" [] BOHdr.arr = 2 -> "bo_m_wb" [] OTHER -> "bo_m_cons", 0)
+    \/ /\ cls = "bo_m_wb"
+       /\ \E op \in BOTarget(BOTg) :
+             BatchOp(1, op) /\ FRec(BOOp("wb", 1, op, "t"), IF BOHdr.arr = 2 THEN "bo_m_cons" ELSE "bo_commit", 0)
+    \/ /\ cls = "bo_m_cons"
+       /\ Consume(1, 1)
+       /\ FRec([a |-> "consume", h |-> 1, s |-> 1], IF BOHdr.arr = 3 THEN "bo_m_wb" ELSE "bo_commit", 0)
+    \* --- commit; read everything; close/open; read everything ---------------
+    \/ /\ cls = "bo_commit"
+       /\ Commit(1)
+       /\ FRec([a |-> "commit", h |-> 1, q |-> TRUE, state |-> Dump(wide', sets')], "bo_sweep1", 0)
+    \/ /\ cls = "bo_sweep1"
+       /\ Sweep
+       /\ FRec([a |-> "sweep", state |-> Dump(wide, sets)], "bo_cold", 0)
+    \/ /\ cls = "bo_cold"
+       /\ Reopen
+       /\ FRec([a |-> "reopen", q |-> TRUE, state |-> Dump(wide, sets)], "bo_sweep2", 0)
+    \/ /\ cls = "bo_sweep2"
+       /\ Sweep
+       /\ FRec([a |-> "sweep", state |-> Dump(wide, sets)], "bo_emit", 0)
+    \/ /\ cls = "bo_emit" /\ ~done
+       /\ done' = TRUE
+       /\ PrintT(ToJson([nk |-> Cardinality(Keys), nv |-> Cardinality(VTypes),
+                         ne |-> Cardinality(Elems), bo |-> TRUE, events |-> hist,
+                         final |-> Dump(wide, sets)]))
+       /\ UNCHANGED <<vars, hist, cls, widx, steps>>
+
+BOSpec == BOInit /\ [][BONext]_gvars
 =============================================================================
